@@ -1,5 +1,6 @@
 import Driver.Proto
 import Verif.Model.JsStmt
+import Verif.Spec.JsLex
 /-! driver handlers for property C01 (ops `model.c01.*`, `spec.c01.*`, `trig.c01.*`)
 
 Programs arrive in a prefix encoding (tokens separated by one space):
@@ -128,13 +129,18 @@ def parseProg (b : Bytes) : Except String (List S) :=
     | none => .error "bad program encoding"
   | [] => .error "empty program"
 
-/-- `model.c01.min <ver2020:0|1> <prog>` → output bytes, `!unmodelled` when outside the fragment -/
+/-- `model.c01.min <ver2020:0|1> <prog>` → output bytes, `!unmodelled` when outside the fragment.
+    The written characters are also read back by the independent lexer `Spec.JsLex.lexTexts`: they must give exactly
+    the tokens that were written (token separation), otherwise the reply is an error -/
 def minH : Handler := fun args => do
   let v ← argBool args 0
   let b ← argBytes args 1
   let prog ← parseProg b
-  match jsMinify { ver2020 := v } prog with
-  | some cs => .ok (charsToBytes cs)
+  match jsTokens { ver2020 := v } prog with
+  | some ts =>
+    let cs := emit ts
+    if Verif.Spec.JsLex.lexTexts cs == some (ts.map (fun t => (tokText t).toList)) then .ok (charsToBytes cs)
+    else .error ("token separation: lex(emit ts) differs from ts for " ++ String.ofList cs)
   | none => .error "unmodelled"
 
 /-- `trig.c01.known <ver2020> <prog>` → `1` iff the program is in the modelled fragment and falls under an open known
